@@ -437,8 +437,10 @@ SIG_DIVMOD = "polynomial.divmod:remainder-loses-more-than-one-degree-in-a-step"
 
 
 def d0_hit(md, sch, n_coeffs_lists):
-    """Does the scheme return 0 on a sub-problem reached from one of the given lengths?  Decided by running
-    the REAL function with a wrapped scheme on dummy Fractions (classification aid, not an oracle)."""
+    """Classification aid (not an oracle): is the failure explained by the `d == 0` branch of fast_polynomial?
+    True iff (a) the scheme returns 0 on a sub-problem reached from one of the given lengths (observed by running
+    the REAL function with a wrapped scheme) and (b) the `d == 0` branch of the REAL function, exercised in
+    isolation with scheme = lambda k, N: 0, does not return the value of the polynomial."""
     R = real()
     mod = R["fpa"] if md == "fpa" else R["P"]
     s = scheme_fn(mod, sch)
@@ -452,18 +454,28 @@ def d0_hit(md, sch, n_coeffs_lists):
             hit.append(k)
         return d
 
+    def call(cs, x, scheme):
+        if md == "fpa":
+            return mod.fast_polynomial(R["qctx"], x, cs, reverse=False, scheme=scheme)
+        return mod.fast_polynomial(x, cs, reverse=False, scheme=scheme)
+
     for n in n_coeffs_lists:
         if n < 1:
             continue
-        cs = [Fraction(1)] * n
         try:
-            if md == "fpa":
-                mod.fast_polynomial(R["qctx"], Fraction(1), cs, reverse=False, scheme=wrapped)
-            else:
-                mod.fast_polynomial(Fraction(1), cs, reverse=False, scheme=wrapped)
+            call([Fraction(1)] * n, Fraction(1), wrapped)
         except Exception:
             pass
-    return bool(hit)
+    if not hit:
+        return False
+    for n in sorted(set(hit)):
+        cs = [Fraction(i + 2) for i in range(n + 1)]
+        try:
+            if Fraction(call(cs, Fraction(3), lambda k, N: 0)) != o_eval(cs, Fraction(3)):
+                return True
+        except Exception:
+            return True
+    return False
 
 
 def check_property(dom, toks, kind, v):
@@ -506,8 +518,8 @@ def check_property(dom, toks, kind, v):
         if Fraction(v) != want:
             if d0_hit(md, sch, [len(cs)]):
                 return (SIG_D0_FPA if md == "fpa" else SIG_D0_POLY, cmd, f"scheme={sch} reverse={rev}: got {v}, definition gives {want}")
-            return (f"{'fpa' if md == 'fpa' else 'polynomial'}.fast_polynomial:value-differs-from-definition(scheme={sch})", cmd,
-                    f"reverse={rev}: got {v}, definition gives {want}")
+            return (f"{'fpa' if md == 'fpa' else 'polynomial'}.fast_polynomial:value-differs-from-definition", cmd,
+                    f"scheme={sch} reverse={rev}: got {v}, definition gives {want}")
         return None
     if cmd == "horner":
         rev = toks[1] == "1"
@@ -571,7 +583,7 @@ def check_property(dom, toks, kind, v):
                 lens = [len(cs)]
             if d0_hit("fpa", sch, lens):
                 return (SIG_D0_FPA, cmd, f"laurent scheme={sch} reverse={rev} m={m}: got {v}, definition gives {want}")
-            return (f"fpa.laurent:value-differs-from-definition(scheme={sch})", cmd, f"reverse={rev} m={m}: got {v}, want {want}")
+            return ("fpa.laurent:value-differs-from-definition", cmd, f"scheme={sch} reverse={rev} m={m}: got {v}, want {want}")
         return None
     if cmd in ("mul", "add"):
         rev, n = toks[1] == "1", int(toks[2])
@@ -636,6 +648,14 @@ def check_property(dom, toks, kind, v):
             return None
         Qt, _ = o_longdiv(A, B)
         what = f"P=Q*D+R {'holds' if ident else 'FAILS'}, deg R < deg D {'holds' if degok else 'FAILS'}; got Q={[str(q) for q in v[0]]} R={[str(r) for r in v[1]]}"
+        if o_strip(A) != A or o_strip(B) != B:
+            # does the failure disappear once trailing zeros are removed by hand?
+            try:
+                q2, r2 = real()["P"].divmod(o_strip(A), o_strip(B))
+                if o_same_poly(o_padd(o_conv(q2, o_strip(B)), r2), A) and len(o_strip(r2)) < len(o_strip(B)):
+                    return ("polynomial.divmod:trailing-zeros-not-handled", cmd, what)
+            except Exception:
+                pass
         if any(q == 0 for q in Qt):
             return (SIG_DIVMOD, cmd, what + "; the true quotient has a zero coefficient")
         return ("polynomial.divmod:wrong-result", cmd, what)
@@ -764,7 +784,7 @@ def T(l):
 def rational_cases(ctx):
     rng = ctx.rng
     out = []
-    reps = ctx.scale(3, 12)
+    reps = ctx.scale(3, 30)
     # --- evaluation: degree 0..40 every scheme/flag, plus > 500
     for _ in range(reps):
         for n in range(1, 42):
